@@ -875,6 +875,7 @@ static void FIO_initDict(FIO_Dict_t* dict, const char* fileName, FIO_prefs_t* co
 int FIO_checkFilenameCollisions(const char** filenameTable, unsigned nbFiles) {
     const char **filenameTableSorted, *prevElem, *filename;
     unsigned u;
+    int collision = 0;   /* @return : 2 when two names collide */
 
     filenameTableSorted = (const char**) malloc(sizeof(char*) * nbFiles);
     if (!filenameTableSorted) {
@@ -896,12 +897,25 @@ int FIO_checkFilenameCollisions(const char** filenameTable, unsigned nbFiles) {
     for (u = 1; u < nbFiles; ++u) {
         if (strcmp(prevElem, filenameTableSorted[u]) == 0) {
             DISPLAYLEVEL(2, "WARNING: Two files have same filename: %s\n", prevElem);
+            collision = 2;
         }
         prevElem = filenameTableSorted[u];
     }
 
     free((void*)filenameTableSorted);
-    return 0;
+    return collision;
+}
+
+/* FIO_keepSourcesOnCollision() :
+ * Several sources that end up under one name in a flat output directory overwrite each other's output :
+ * the output cannot stand for all of them, so --rm is disabled, as for a concatenated output. */
+static void FIO_keepSourcesOnCollision(FIO_prefs_t* prefs, const char** filenameTable, unsigned nbFiles)
+{
+    if (nbFiles < 2) return;
+    if (FIO_checkFilenameCollisions(filenameTable, nbFiles) == 2 && prefs->removeSrcFile) {
+        DISPLAYLEVEL(1, "zstd: several input files share one output name : input files will not be removed. \n");
+        prefs->removeSrcFile = 0;
+    }
 }
 
 static const char*
@@ -2257,6 +2271,8 @@ int FIO_compressMultipleFilenames(FIO_ctx_t* const fCtx,
     } else {
         if (outMirroredRootDirName)
             UTIL_mirrorSourceFilesDirectories(inFileNamesTable, (unsigned)fCtx->nbFilesTotal, outMirroredRootDirName);
+        if (outDirName)   /* before anything is written or removed */
+            FIO_keepSourcesOnCollision(prefs, inFileNamesTable, (unsigned)fCtx->nbFilesTotal);
 
         for (; fCtx->currFileIdx < fCtx->nbFilesTotal; ++fCtx->currFileIdx) {
             const char* const srcFileName = inFileNamesTable[fCtx->currFileIdx];
@@ -2278,9 +2294,6 @@ int FIO_compressMultipleFilenames(FIO_ctx_t* const fCtx,
             if (!status) fCtx->nbFilesProcessed++;
             error |= status;
         }
-
-        if (outDirName)
-            FIO_checkFilenameCollisions(inFileNamesTable , (unsigned)fCtx->nbFilesTotal);
     }
 
     if (FIO_shouldDisplayMultipleFileSummary(fCtx)) {
@@ -3112,6 +3125,8 @@ FIO_decompressMultipleFilenames(FIO_ctx_t* const fCtx,
     } else {
         if (outMirroredRootDirName)
             UTIL_mirrorSourceFilesDirectories(srcNamesTable, (unsigned)fCtx->nbFilesTotal, outMirroredRootDirName);
+        if (outDirName)   /* before anything is written or removed */
+            FIO_keepSourcesOnCollision(prefs, srcNamesTable, (unsigned)fCtx->nbFilesTotal);
 
         for (; fCtx->currFileIdx < fCtx->nbFilesTotal; fCtx->currFileIdx++) {   /* create dstFileName */
             const char* const srcFileName = srcNamesTable[fCtx->currFileIdx];
@@ -3132,8 +3147,6 @@ FIO_decompressMultipleFilenames(FIO_ctx_t* const fCtx,
             if (!status) fCtx->nbFilesProcessed++;
             error |= status;
         }
-        if (outDirName)
-            FIO_checkFilenameCollisions(srcNamesTable , (unsigned)fCtx->nbFilesTotal);
     }
 
     if (FIO_shouldDisplayMultipleFileSummary(fCtx)) {
